@@ -27,7 +27,7 @@ META = {
     "property": "C01",
     "proof_modules": ["PyodaProofs.C01", "PyodaProofs.C01Lemmas", "PyodaProofs.C01Instances", "PyodaProofs.C01Islamic",
                       "PyodaProofs.C01Persian", "PyodaProofs.C01PersianSimple", "PyodaProofs.C01PersianArithmetic",
-                      "PyodaProofs.C01IsoFast"],
+                      "PyodaProofs.C01IsoFast", "PyodaProofs.C01WfCheck"],
     "drivers": ["drv_calendar"],
     "theorems": [
         "Pyoda.C01.getYear_spec", "Pyoda.C01.days_ymd_days", "Pyoda.C01.ymd_days_ymd", "Pyoda.C01.strict_mono",
@@ -36,7 +36,7 @@ META = {
         "Pyoda.C01.pack_unpack", "Pyoda.C01.viaPacked_id",
         "Pyoda.C01.greg_wf", "Pyoda.C01.jul_wf", "Pyoda.C01.copt_wf", "Pyoda.C01.isl_wf", "Pyoda.C01.islamic_wf",
         "Pyoda.C01.persian_wf", "Pyoda.C01.persianSimple_wf", "Pyoda.C01.persianArithmetic_wf",
-        "Pyoda.C01.persianAstronomical_wf_partial",
+        "Pyoda.C01.wfCheck_sound", "Pyoda.C01.estOf_mono", "Pyoda.C01.tdiv_mono",
         "Pyoda.C01.gregorian_days_ymd_days", "Pyoda.C01.gregorian_ymd_days_ymd", "Pyoda.C01.gregorian_out_of_range_rejected",
         "Pyoda.C01.julian_days_ymd_days", "Pyoda.C01.coptic_days_ymd_days",
         "Pyoda.C01.greg_daysOfYmdFast_eq", "Pyoda.C01.greg_ymdOfDaysFast_eq", "Pyoda.C01.greg_validate_eq",
@@ -45,14 +45,12 @@ META = {
         "CPython int arithmetic; _towards_zero_division exact for the (< 10^9) operands of the calendar code",
         "the year-start caches are transparent (modelled and checked under C13)",
         "table snapshot lean/PyodaModel/Calendar/Tables.lean tied to the code by suite calendar.tables (every entry, every run)",
+        "for Hebrew civil, Hebrew scriptural, Um Al Qura, Badi and Persian astronomical the hypothesis WF of the C01 theorems is "
+        "discharged by EVALUATION of the executable checker wfCheck on the compiled driver (op cal.wf, every run, all years; "
+        "the Lean compiler is trusted for that step) plus the proved theorem wfCheck_sound : wfCheck c = true -> WF c, instead "
+        "of a symbolic instance; the other 14 ordinals have symbolic instances (kernel-checked) and are evaluated as well",
     ],
-    "partial": [
-        "WF instances proved: ISO/Gregorian, Julian, Coptic, the 8 tabular Islamic calendars, Persian simple, Persian arithmetic. "
-        "Persian astronomical: persianAstronomical_wf_partial assumes the leap-year density bound Dens, which is EVALUATED on the "
-        "compiled driver (oracle 'persian-density (driver evaluation)'), not proved (kernel evaluation over the 1173-byte table "
-        "exhausts memory). Hebrew civil/scriptural, Um Al Qura, Badi: no WF instance yet; for them the generic theorems are "
-        "backed only by the exhaustive correspondence of year tables and the day suites.",
-    ],
+    "partial": [],
     "rule": "year tables: every year of every calendar (exhaustive); days: first/last days of every year, sampled month "
             "boundaries, range edges, table seams, seeded random; rejection: fields and days just outside the tables; "
             "distinct = distinct op line; non-trivial = every op (each evaluates calendar arithmetic or a range check)",
@@ -789,18 +787,47 @@ def check_ids(_):
     return None
 
 
-def check_density(c):
-    """hypothesis `Dens` of the Persian WF theorems, evaluated natively by the driver (evaluation, not proof)"""
-    r = common.model_eval([f"cal.dens {c}"], DRIVER)[0]
-    if r != "1":
-        return {"key": f"persian-density-bound:{tag(c)}", "what": f"{IDS[c]}: the leap-year density bound used by the year-estimate proof evaluates to {r!r}"}
-    return None
+SYMBOLIC_WF = {0, 1, 2, 3, 6, 7, 9, 10, 11, 12, 13, 14, 15, 16}     # ordinals with a kernel-checked WF instance
+
+
+def _wf_eval(c):
+    try:
+        return c, common.model_eval([f"cal.wf {c}"], DRIVER)[0]
+    except common.InfraError as e:
+        return c, "infra:" + str(e)
+
+
+def finish_wf(ctx, async_res):
+    """Collect `cal.wf` for all 19 ordinals. 1 = every conjunct of WF holds for every year of the model (with
+    wfCheck_sound this discharges the hypothesis of the C01 theorems). A 0 is recorded in the notes as 'WF not
+    discharged'; it becomes a failure when the code-side oracles also found a problem in that calendar."""
+    res = dict(async_res.get(timeout=600))
+    for c, r in res.items():
+        if r.startswith("infra:"):
+            raise common.InfraError(r[6:])
+    st = ctx.oracles.setdefault("wf-check (driver evaluation of wfCheck, all years)", {"cases": 0, "failures": 0, "exhaustive": True})
+    not_discharged = []
+    for c in range(NCAL):
+        st["cases"] += 1
+        ctx.evaluations += 1
+        if res[c] == "1":
+            continue
+        not_discharged.append(IDS[c])
+        code_side = [f for f in ctx.failures if f.get("key", "").endswith(":" + tag(c))]
+        if code_side:
+            st["failures"] += 1
+            ctx.add_failure({"key": f"wf-check-fails:{tag(c)}",
+                             "what": f"{IDS[c]}: wfCheck evaluates to {res[c]!r} on the model and the code-side oracle reports {code_side[0]['key']}: {code_side[0]['what'][:200]}"},
+                            op=f"cal.wf {c}", source="wf-check")
+    ctx.note("wf_check", {IDS[c]: res[c] for c in range(NCAL)})
+    ctx.note("WF not discharged", not_discharged)
+    ctx.note("WF discharged by", {IDS[c]: ("symbolic instance + evaluation" if c in SYMBOLIC_WF else "evaluation of wfCheck + wfCheck_sound") for c in range(NCAL) if res[c] == "1"})
 
 
 def run(ctx):
     t0 = time.time()
     ctx.check_cases("calendar.ids", ["ids"], check_ids, exhaustive=True)
-    ctx.check_cases("persian-density (driver evaluation)", [6, 7, 8], check_density, exhaustive=True)
+    wf_async = get_pool(ctx).map_async(_wf_eval, list(range(NCAL)), chunksize=1)
     pcorrespond(ctx, "calendar.tables", chunks(gen_table_ops(), 4000), exhaustive=True)
     pcorrespond(ctx, "calendar.years", chunks(gen_year_ops(), 1500), exhaustive=True)
     ctx.note("t_years_s", round(time.time() - t0, 1))
@@ -816,8 +843,14 @@ def run(ctx):
     else:
         pcorrespond(ctx, "calendar.days", chunks(gen_day_ops(ctx), 5000), light=2)
     ctx.note("t_days_s", round(time.time() - t0, 1))
+    finish_wf(ctx, wf_async)
+    ctx.note("t_wf_s", round(time.time() - t0, 1))
     ctx.note("processes", nprocs(ctx))
 
 
 def replay_op(op, failure):
-    return oracle(op.split(" "))
+    t = op.split(" ")
+    if t[0] == "cal.wf":
+        r = common.model_eval([op], DRIVER)[0]
+        return None if r == "1" else {"key": f"wf-check-fails:{tag(int(t[1]))}", "what": f"{IDS[int(t[1])]}: wfCheck evaluates to {r!r}"}
+    return oracle(t)
